@@ -19,7 +19,7 @@ EXPLANATION = (
     "are derived (zBot, z_top, zMid) are consumed only by the enumerated groundwater routines; the initial-water-content "
     "interpolation takes its mid-depths from the base column dzsum. C18.d (typestate): the scalars fill_nan derives from the frame (zSoil, nComp) are read, in every "
     "function that receives the user's Soil, only on paths that pass fill_nan() since the entry and since every dz update, and such a "
-    "function returns with the Soil fresh - so the deepening loop tests the real depth of the profile. C18.e: add_layer's two branches compare a depth from the surface (thickness, resp. thickness + a value read from dzsum) with the compartment bottoms under the same rounding (sibling agreement + quantity kinds). C18.f: the per-layer initial water content is written into layer depth_layer[i] with the value computed for request i (same index), never by position. C18.g: the requested layers are completed over all layers of the profile before the per-layer fill (an unlisted layer takes the last request, it does not keep the 0 of the allocation). C18.h: with a water table the adjusted field capacity replaces the initial content elementwise, only where field capacity was requested. NOT decided: arbitrary custom dz, pedotransfer "
+    "function returns with the Soil fresh - so the deepening loop tests the real depth of the profile. C18.e: add_layer's two branches compare a depth from the surface (thickness, resp. thickness + a value read from dzsum) with the compartment bottoms under the same rounding (sibling agreement + quantity kinds). C18.f: the per-layer initial water content is written into layer depth_layer[i] with the value computed for request i (same index), never by position. C18.g: the requested layers are completed over all layers of the profile before the per-layer fill (an unlisted layer takes the last request, it does not keep the 0 of the allocation). C18.h: with a water table the adjusted field capacity replaces the initial content elementwise, only where field capacity was requested. C18.i: the depth points of the 'Depth' method reach np.interp in ascending order (permuted by an argsort, values with the same permutation). NOT decided: arbitrary custom dz, pedotransfer "
     "ranges, numeric interpolation of initial water content.")
 
 DERIVED_CONSUMERS_OK = {
@@ -593,10 +593,19 @@ def rule_g(chk, prog):
         construct = f"per-layer fill `{norm(a)}` over the requests in `{L}`"
         # completion: for l in range(1, <..nLayer..> + 1): [if l not in ..:] L.append(l)
         comp_nodes = set()
+        range_loops = []
         for lp2 in walk_no_nested(fi.node):
-            if isinstance(lp2, ast.For) and isinstance(lp2.target, ast.Name) and isinstance(lp2.iter, ast.Call) and norm(lp2.iter.func) == "range" \
-                    and any(isinstance(x, ast.Attribute) and x.attr == "nLayer" for x in ast.walk(lp2.iter)) \
-                    and len(lp2.iter.args) == 2 and norm(lp2.iter.args[0]) == "1" and isinstance(lp2.iter.args[1], ast.BinOp) and isinstance(lp2.iter.args[1].op, ast.Add):
+            # iteration domain = all layers of the profile: range(1, nLayer + 1), or the layer numbers present in the profile frame
+            # (`profile.Layer.unique()`, possibly through sorted(...) / a generator that casts them) / the per-layer table's index
+            it_ = lp2.iter if isinstance(lp2, ast.For) else None
+            dom_range = isinstance(it_, ast.Call) and norm(it_.func) == "range" and any(isinstance(x, ast.Attribute) and x.attr == "nLayer" for x in ast.walk(it_)) \
+                and len(it_.args) == 2 and norm(it_.args[0]) == "1" and isinstance(it_.args[1], ast.BinOp) and isinstance(it_.args[1].op, ast.Add)
+            dom_present = it_ is not None and (any(isinstance(x, ast.Call) and isinstance(x.func, ast.Attribute) and x.func.attr == "unique" and isinstance(x.func.value, ast.Attribute)
+                                                    and x.func.value.attr == "Layer" for x in ast.walk(it_))
+                                               or (isinstance(it_, ast.Attribute) and it_.attr == "index" and "hyd" in norm(it_.value).lower()))
+            if dom_range and not dom_present:
+                range_loops.append(lp2)
+            if isinstance(lp2, ast.For) and isinstance(lp2.target, ast.Name) and dom_present:
                 for c in ast.walk(lp2):
                     if isinstance(c, ast.Call) and isinstance(c.func, ast.Attribute) and c.func.attr == "append" and isinstance(c.func.value, ast.Name) \
                             and c.args and isinstance(c.args[0], ast.Name) and c.args[0].id == lp2.target.id:
@@ -608,6 +617,11 @@ def rule_g(chk, prog):
                             k = next((q.id for q in cfg.live_nodes() if q.kind == "for" and q.ast is lp2), None)
                             if k is not None:
                                 comp_nodes.add(k)
+        if not comp_nodes and range_loops:
+            chk.violation("C18.g", where, construct, f"the requested layers in `{L}` are completed over range(1, nLayer + 1): nLayer counts add_layer calls, and a layer added "
+                          "below the bottom of the compartments has no row in the per-layer table - its lookup raises KeyError. Iterate over the layers present in the profile",
+                          loc=fi.loc(range_loops[0]))
+            continue
         if not comp_nodes:
             chk.violation("C18.g", where, construct, f"the requested layers in `{L}` are never completed over all layers of the profile (no `for l in range(1, nLayer + 1): "
                           f"... {L}.append(l)` before the fill): a layer that is not listed - layer 2 of the Paddy soil under the default request - keeps the 0.0 "
@@ -649,7 +663,7 @@ def rule_g(chk, prog):
         if lpn is not None and _reach():
             chk.violation("C18.g", where, construct, "the completion of the requested layers over all layers of the profile is skipped on some path to the per-layer fill", loc=fi.loc(lp))
         else:
-            chk.ok("C18.g", where, construct, f"`{L}` is completed over range(1, nLayer + 1) on every path before the fill")
+            chk.ok("C18.g", where, construct, f"`{L}` is completed over all layers of the profile on every path before the fill")
     chk.floor("C18.g", n, 1, "per-layer fills of the initial water content")
 
 
@@ -659,20 +673,55 @@ def rule_h(chk, prog, rule="C18.h"):
     `np.where(<th compared with th_fc>, <adjusted>, <th>)` - never the whole array (which overrides the other requests and makes th an alias
     of th_fc_Adj), and never decided by the last requested value alone."""
     from ..rdef import flow_of, ENTRY
-    fi = prog.find_func("read_model_initial_conditions")
-    chk.fn(fi.key)
-    where = f"{fi.module}:{fi.qualname}"
-    flow = flow_of(fi)
-    cfg = flow.cfg
+    ic = prog.find_func("read_model_initial_conditions")
     n = 0
-    for a in walk_no_nested(fi.node):
-        if not (isinstance(a, ast.Assign) and isinstance(a.targets[0], ast.Attribute) and a.targets[0].attr == "th"):
-            continue
-        if not any(isinstance(x, ast.Attribute) and x.attr == "th_fc_Adj" for x in ast.walk(a.value)):
-            continue
+    # the store may sit in the initial conditions themselves or in a helper they (and the season reset) call with the adjusted field
+    # capacity: follow `X.th = helper(th, at_fc, th_fc_Adj, ...)` into the helper, formals bound to the actuals
+    sites = []
+    for a in walk_no_nested(ic.node):
+        if isinstance(a, ast.Assign) and isinstance(a.targets[0], ast.Attribute) and a.targets[0].attr == "th" \
+                and any(isinstance(x, ast.Attribute) and x.attr == "th_fc_Adj" for x in ast.walk(a.value)):
+            h = prog.resolve_call(ic, a.value) if isinstance(a.value, ast.Call) else None
+            if hasattr(h, "key"):
+                pos = h.params
+                bind = {pos[i]: arg for i, arg in enumerate(a.value.args) if i < len(pos)}
+                adj = {f for f, arg in bind.items() if any(isinstance(x, ast.Attribute) and x.attr == "th_fc_Adj" for x in ast.walk(arg))}
+                cur = {f for f, arg in bind.items() if isinstance(arg, ast.Attribute) and arg.attr == "th"}
+                msk = {f: arg for f, arg in bind.items() if isinstance(arg, (ast.Attribute, ast.Name)) and ("fc" in norm(arg).lower()) and f not in adj}
+                for b in walk_no_nested(h.node):
+                    if isinstance(b, ast.Assign) and isinstance(b.targets[0], ast.Name) and b.targets[0].id in cur \
+                            and any(isinstance(x, ast.Name) and x.id in adj for x in ast.walk(b.value)):
+                        sites.append((h, b, adj, cur, msk, ic))
+            else:
+                sites.append((ic, a, None, None, None, ic))
+    for fi, a, adj, cur, msk, caller in sites:
+        chk.fn(fi.key)
+        where = f"{fi.module}:{fi.qualname}"
+        flow = flow_of(fi)
+        cfg = flow.cfg
         n += 1
         construct = norm(a)
         v = a.value
+        if adj is not None:
+            # inside the helper: th = np.where(<mask formal>, <adjusted formal>, th) and the caller's mask is `Prop & isclose(th, th_fc)`
+            ok = isinstance(v, ast.Call) and norm(v.func) in ("np.where", "numpy.where") and len(v.args) == 3 and isinstance(v.args[0], ast.Name) and v.args[0].id in msk \
+                and isinstance(v.args[1], ast.Name) and v.args[1].id in adj and isinstance(v.args[2], ast.Name) and v.args[2].id in cur
+            mask_ok = False
+            if ok:
+                marg = msk[v.args[0].id]
+                # definition of the mask in the caller: a comparison of the requested content with the field capacity
+                for b in walk_no_nested(caller.node):
+                    if isinstance(b, ast.Assign) and norm(b.targets[0]) == norm(marg):
+                        reads_th = any(isinstance(x, ast.Attribute) and x.attr == "th" for x in ast.walk(b.value))
+                        reads_fc = any(isinstance(x, ast.Attribute) and x.attr == "th_fc" for x in ast.walk(b.value))
+                        cmp_ = any(isinstance(x, ast.Compare) or (isinstance(x, ast.Call) and norm(x.func) in ("np.isclose", "numpy.isclose", "np.equal")) for x in ast.walk(b.value))
+                        mask_ok = reads_th and reads_fc and cmp_
+            if ok and mask_ok:
+                chk.ok(rule, where, construct, "elementwise: only compartments whose request was their field capacity take the adjusted value (mask built by the caller)")
+            else:
+                chk.violation(rule, where, construct, "the adjusted field capacity does not replace the requested content elementwise under a `th compared with th_fc` mask: "
+                              "requests other than field capacity are overridden as soon as a water table is present, however deep", loc=fi.loc(a))
+            continue
         ok, why = False, "the whole initial profile is replaced by the adjusted field capacity"
         if isinstance(v, ast.Call) and norm(v.func) in ("np.where", "numpy.where") and len(v.args) == 3:
             adj_ok = any(isinstance(x, ast.Attribute) and x.attr == "th_fc_Adj" for x in ast.walk(v.args[1]))
@@ -704,4 +753,6 @@ def run(chk, prog, tier):
     rule_f(chk, prog)
     rule_g(chk, prog)
     rule_h(chk, prog)
+    from ._siblings import interp_sorted
+    chk.floor("C18.i", interp_sorted(chk, prog, "C18.i", "read_model_initial_conditions"), 1, "interpolations of the initial water content")
     chk.assume("A-1")
